@@ -38,17 +38,17 @@ fn faults_off() {
 }
 
 /// One faulted execution. mode 0: syscall injector; mode 1: try_io injector. Returns Ok(fault was reached).
-fn one(scn: &Scenario, dir: &Path, hist: &[Ev], ev: &Ev, mode: u8, j: usize, stats: &mut FaultStats) -> Result<bool, Fail> {
+fn one(scn: &Scenario, dir: &Path, hist: &[Ev], ev: &Ev, mode: u8, j: usize, heal: bool, stats: &mut FaultStats) -> Result<bool, Fail> {
 	crate::exec::wipe_dir(dir);
 	crash::start(dir);
-	let r = one_inner(scn, dir, hist, ev, mode, j, stats);
+	let r = one_inner(scn, dir, hist, ev, mode, j, heal, stats);
 	faults_off();
 	crash::stop();
 	r
 }
 
-fn one_inner(scn: &Scenario, dir: &Path, hist: &[Ev], ev: &Ev, mode: u8, j: usize, stats: &mut FaultStats) -> Result<bool, Fail> {
-	let what = format!("{} fails from its {} #{} on", ev.short(), if mode == 0 { "file operation (syscall)" } else { "I/O site (try_io)" }, j);
+fn one_inner(scn: &Scenario, dir: &Path, hist: &[Ev], ev: &Ev, mode: u8, j: usize, heal: bool, stats: &mut FaultStats) -> Result<bool, Fail> {
+	let what = format!("{} fails from its {} #{} on{}", ev.short(), if mode == 0 { "file operation (syscall)" } else { "I/O site (try_io)" }, j, if heal { " (the fault goes away before the handle is dropped)" } else { "" });
 	let tag = |f: Fail| Fail::new(&format!("fault-{}", f.kind), format!("{}: {}", what, f.msg));
 	let mut ex = crate::search::build(scn, dir)?;
 	ex.record_prefix = true;
@@ -125,7 +125,7 @@ fn one_inner(scn: &Scenario, dir: &Path, hist: &[Ev], ev: &Ev, mode: u8, j: usiz
 			// The workers may each finish the iteration they were in when the failure was reported: one more
 			// enact and one more cleanup step (results ignored), then the power goes: of everything not synced an
 			// arbitrary subset of pages survives. Recovery must still give a prefix holding every synced commit.
-			if scn.faults_then_power_loss {
+			if scn.faults_then_power_loss && !heal {
 				let db = ex.db();
 				let _ = std::panic::catch_unwind(std::panic::AssertUnwindSafe(|| {
 					let _ = db.verif_step(parity_db::verif::Stage::EnactOne);
@@ -155,7 +155,11 @@ fn one_inner(scn: &Scenario, dir: &Path, hist: &[Ev], ev: &Ev, mode: u8, j: usiz
 				stats.power_loss_images += cs.power_loss_images;
 				r.map_err(|f| Fail::new(&format!("fault-then-power-loss-{}", f.kind), f.msg))?;
 			}
-			// drop with the fault still present must terminate without panic
+			// drop with the fault still present must terminate without panic; in the `heal` variant the fault is gone
+			// by the time the handle is dropped (the error-state shutdown path then really performs its file operations)
+			if heal {
+				faults_off();
+			}
 			ex.close().map_err(tag)?;
 		}
 		// the fault goes away; reopen
@@ -209,9 +213,13 @@ pub fn sweep(scn: &Scenario, dir: &Path, hist: &[Ev], ev: &Ev, stats: &mut Fault
 		let mut j = 0;
 		loop {
 			stats.runs += 1;
-			let hit = one(scn, dir, hist, ev, mode, j, stats)?;
+			let hit = one(scn, dir, hist, ev, mode, j, false, stats)?;
 			if !hit {
 				break
+			}
+			if matches!(ev, Ev::Stage(_)) {
+				stats.runs += 1;
+				one(scn, dir, hist, ev, mode, j, true, stats)?;
 			}
 			stats.faults_hit += 1;
 			j += 1;
